@@ -105,6 +105,9 @@ package state
 //@   ensures rollover-at-wrap [C15]: err == nil && !prio ==> (s.outEpoch == old(s.outEpoch) + 1) == (old(s.reglSeqHandler.outSeq.v) == 0xFFFFFFFF)
 //@   ensures rollover-restarts-priority [C15]: err == nil && s.outEpoch != old(s.outEpoch) ==> s.prioSeqHandler.outSeq.v == 0 && seqNum == 1
 //@   ensures no-epoch-skip [C15]: s.outEpoch == old(s.outEpoch) || s.outEpoch == old(s.outEpoch) + 1
+// a counter restarts only together with its key: within one key epoch no sequence number (nonce) is handed out twice,
+// also not after a refused priority wrap (the regular-class error path of a failed key derivation is excluded)
+//@   ensures counters-restart-only-with-a-new-key [C15]: s.outEpoch == old(s.outEpoch) && (prio || err == nil) ==> s.prioSeqHandler.outSeq.v >= old(s.prioSeqHandler.outSeq.v) && s.reglSeqHandler.outSeq.v >= old(s.reglSeqHandler.outSeq.v)
 
 // Choosing the cipher for an incoming frame happens before the frame is authenticated: it moves no key, no epoch and
 // no receive window (C02, C05: a tampered, forged or replayed frame cannot desynchronise the session; C15: receiving
